@@ -110,6 +110,7 @@ pub fn legal_gen_list<S: Src, const SIDE: u8, const G: u8, const KP: u32, const 
         vassert!("the filter is asked exactly once about each generated move", unsafe { crate::s6::T_ASKED } == (semilegal_ref(&p, t) && class_ref(&p, t, G)) as u32);
         vcover!("target kept", want);
         vcover!("target generated but filtered out", semilegal_ref(&p, t) && class_ref(&p, t, G) && !ans);
+        vcover!("an en-passant target kept", want && t.kind == K_EP || G == crate::c06::G_SIMPLE || G == crate::c06::G_SIMPLE_NO_PROMOTE || G == crate::c06::G_SIMPLE_PROMOTE);
     }
     #[cfg(not(kani))]
     {
